@@ -42,6 +42,7 @@ end
 def showParsed (fs : List Schema) : Except PyErr (List Value × Ptrs) → String
   | .ok (vs, p) => "ok P=" ++ showValues (hideMarkers fs vs) ++ " SC=" ++ toHexList p.sigCovered ++ " SV=" ++ optHex p.sigValue
       ++ " DC=" ++ toHexList p.digestCovered ++ " DV=" ++ optHex p.digestValue
+      ++ " PC=" ++ (if paramsCheck Sha256.sha256 p then "1" else "0")
   | .error e => "err " ++ e.name
 
 def showMade (fs : List Schema) (parse : Bytes → Except PyErr (List Value × Ptrs)) : Except PyErr Made → String
@@ -49,7 +50,7 @@ def showMade (fs : List Schema) (parse : Bytes → Except PyErr (List Value × P
       ++ " D=" ++ toHex m.digestCovered ++ " | " ++ showParsed fs (parse m.wire)
   | .error e => "err " ++ e.name
 
-def handle (args : List String) : String :=
+def handle1 (args : List String) : String :=
   match args with
   | ["data", nm, mi, ct, si, sg] =>
     match fromHexList nm, readValue mi, readValue ct, readValue si, readSigner sg with
@@ -69,5 +70,16 @@ def handle (args : List String) : String :=
     | some w => showParsed interestFs (parseInterest w)
     | none => "bad-op"
   | _ => "bad-op"
+
+/-- several questions on one line are separated by `;;` -/
+partial def splitQ : List String → List (List String)
+  | [] => [[]]
+  | ";;" :: r => [] :: splitQ r
+  | a :: r => match splitQ r with
+    | q :: qs => (a :: q) :: qs
+    | [] => [[a]]
+
+def handle (args : List String) : String :=
+  " ;; ".intercalate ((splitQ args).map handle1)
 
 end Ndn.Drv.C01
